@@ -83,9 +83,10 @@ def gen_cases(tier, seed):
                         continue
                     nfmt = rng.choice(["persistent", "transient", "email", "given"])
                     cid = "%s-r%d-a%d-e%d-%s-%s-%s" % (icls, sr, sa, enc, binding, alg, nfmt)
-                    cases.append({"id": cid, "sig": [icls, nfmt, binding, sr, sa, enc, alg], "icls": icls, "sr": sr, "sa": sa, "enc": enc, "binding": binding,
+                    skew = rng.choice([0, 0, 180, 3600])
+                    cases.append({"id": cid, "sig": [icls, nfmt, binding, sr, sa, enc, alg, skew > 0], "icls": icls, "sr": sr, "sa": sa, "enc": enc, "binding": binding,
                                   "alg": alg, "nfmt": nfmt, "classref": rng.choice(CLASSREFS), "snooa": rng.choice([None, 3600, 86400 * 3]),
-                                  "lifetime": rng.choice([5, 15, 600])})
+                                  "lifetime": rng.choice([5, 15, 600]), "skew": skew})
     return cases
 
 
@@ -93,14 +94,15 @@ def setup_worker(ctx):
     ctx.fedcache = fed.Cache()
 
 
-def _pair(ctx, sr, sa, lifetime):
+def _pair(ctx, sr, sa, lifetime, skew=0):
     def build():
-        spc = fed.sp_conf(want_response_signed=bool(sr), want_assertions_signed=bool(sa))
+        # accepted_time_diff widens what the SP accepts; it must not change what the application reads
+        spc = fed.sp_conf(want_response_signed=bool(sr), want_assertions_signed=bool(sa), top=({"accepted_time_diff": skew} if skew else None))
         policy = {"default": {"lifetime": {"minutes": lifetime}, "attribute_restrictions": None,
                               "name_form": "urn:oasis:names:tc:SAML:2.0:attrname-format:uri", "nameid_format": NAMEID_FORMAT_PERSISTENT}}
         idc = fed.idp_conf(policy=policy, domain="example.org")
         return fed.make_sp(spc, [fed.metadata_of(idc)]), fed.make_idp(idc, [fed.metadata_of(spc)])
-    return ctx.fedcache.get("pair", [sr, sa, lifetime], build)
+    return ctx.fedcache.get("pair", [sr, sa, lifetime, skew], build)
 
 
 class _Form(html.parser.HTMLParser):
@@ -118,7 +120,7 @@ class _Form(html.parser.HTMLParser):
 def run_case(case, ctx):
     from saml2_tophat.saml import NameID
     from saml2_tophat.samlp import NameIDPolicy
-    sp, idp = _pair(ctx, case["sr"], case["sa"], case["lifetime"])
+    sp, idp = _pair(ctx, case["sr"], case["sa"], case["lifetime"], case.get("skew", 0))
     rng = random.Random("%s/%s" % (ctx.seed, case["id"]))
     ident = identity_for(case["icls"], rng)
     binding = {"post": BINDING_HTTP_POST, "redirect": BINDING_HTTP_REDIRECT, "soap": BINDING_SOAP}[case["binding"]]
@@ -147,8 +149,8 @@ def run_case(case, ctx):
         # "every response the provider builds": a refusal to build is counted, not a violation (DESIGN.md C17)
         return {"outcome": "idp-raised:" + type(exc).__name__, "nontrivial": False, "violations": [], "counters": {"idp_raised": 1}, "obs": {"exc": repr(exc)[:200]}}
     viol = []
-    desc = "identity=%s nameid=%s binding=%s sign_response=%d sign_assertion=%d encrypt=%d alg=%s" % (
-        case["icls"], case["nfmt"], case["binding"], case["sr"], case["sa"], case["enc"], case["alg"])
+    desc = "identity=%s nameid=%s binding=%s sign_response=%d sign_assertion=%d encrypt=%d alg=%s accepted_time_diff=%d" % (
+        case["icls"], case["nfmt"], case["binding"], case["sr"], case["sa"], case["enc"], case["alg"], case.get("skew", 0))
     # structure of the plaintext message: exactly the asked attributes and values, nothing else
     if not case["enc"]:
         root = ET.fromstring(xml.encode("utf-8"))
